@@ -86,7 +86,7 @@ func genSample(seed, k int, keep func(genInfo) bool) []genInfo {
 
 // ---------------------------------------------------------------- generated root-path tables (>= 3000)
 
-var genRoots = []string{"/a", "/a/b", "/{v}", "/{v:[0-9]+}", "/{v}.x", "/p{v}", "/a/{v}", "/{v}/b", "/a/{v}.x", "/{v:[0-9]*}", "/", "/a/{v:[0-9]+}"}
+var genRoots = []string{"/a", "/a/b", "/{v}", "/{v:[0-9]+}", "/{v}.x", "/p{v}", "/a/{v}", "/{v}/b", "/a/{v}.x", "/{v:[0-9]*}", "/", "/a/{v:[0-9]+}", "/{v}/{u}"}
 
 type genRootInfo struct {
 	idx       int  // configuration number
